@@ -21,7 +21,8 @@ CONSTANTS NameFr,        \* element names; "" = implicit name
           RepFr,         \* repeaters: "*2", "*" ...
           OpFr,          \* subset of {">", "+", "^", "^^"}
           MaxFrag, MaxGroups, MaxMods,
-          ScChild        \* TRUE: ">" may also follow an element that carries the self-closing mark
+          ScChild,       \* TRUE: ">" may also follow an element that carries the self-closing mark
+          TreeOnly       \* TRUE: print the converted tree only (not the markup of AbbrPrint.tla)
 
 VARIABLES expect, nfrag, lvl, grp, nmods, hasText, need, sc
 gvars == <<s, tokres, parsed, phase, expect, nfrag, lvl, grp, nmods, hasText, need, sc>>
@@ -69,7 +70,9 @@ Tiling == Complete => TilingInv
 TreeFacts == Complete => LET L == ConvertOut.nodes IN
                 /\ L # <<>> /\ L[1].d = 0
                 /\ \A i \in 2..Len(L) : L[i].d <= L[i - 1].d + 1                 \* pre-order listing of a forest
-GDump == Complete => PrintT(<<"VEC", ToJson([s |-> s, out |-> ConvertOut, printed |-> Printed,
+GDump == Complete =>
+           IF TreeOnly THEN PrintT(<<"VEC", ToJson([s |-> s, out |-> ConvertOut, printed |-> ""])>>)     \* large trees: the printers are quadratic in TLC
+           ELSE PrintT(<<"VEC", ToJson([s |-> s, out |-> ConvertOut, printed |-> Printed,
                                               indent |-> [pug |-> IndentPrinted("pug"), haml |-> IndentPrinted("haml"), slim |-> IndentPrinted("slim")],
                                               marked |-> [html |-> PrintedF, htmlc |-> PrintedFC, pug |-> IndentPrintedF("pug"), haml |-> IndentPrintedF("haml"), slim |-> IndentPrintedF("slim")]])>>)
 =============================================================================
